@@ -82,7 +82,7 @@ func (f *TermFactory) fresh(sort Sort, name string) *Term {
 func smtSym(name string) string {
 	ok := true
 	for _, c := range name {
-		if !(c >= 'a' && c <= 'z' || c >= 'A' && c <= 'Z' || c >= '0' && c <= '9' || c == '_' || c == '.' || c == '!' || c == '#') {
+		if !(c >= 'a' && c <= 'z' || c >= 'A' && c <= 'Z' || c >= '0' && c <= '9' || c == '_' || c == '.' || c == '!') {
 			ok = false
 		}
 	}
